@@ -1586,12 +1586,11 @@ func (self *LockDB) RemoveLockManager(lockManager *LockManager) {
 	}
 
 	self.mGlock.Lock()
-	if _, ok := self.locks[lockManager.lockKey]; !ok {
-		self.mGlock.Unlock()
-		return
+	if currentLockManager, ok := self.locks[lockManager.lockKey]; ok && currentLockManager == lockManager {
+		delete(self.locks, lockManager.lockKey)
 	}
-
-	delete(self.locks, lockManager.lockKey)
+	// otherwise a new request for the key has replaced the entry of this (already freed) manager with a
+	// new manager while we waited for the mutex: that entry is not ours to delete, ours is gone already
 	atomic.AddUint32(&fastValue.count, 0xffffffff)
 	self.mGlock.Unlock()
 	lockManager.lockKey[0], lockManager.lockKey[1], lockManager.lockKey[2], lockManager.lockKey[3], lockManager.lockKey[4], lockManager.lockKey[5], lockManager.lockKey[6], lockManager.lockKey[7],
